@@ -13,8 +13,11 @@ PROP = {'drive': ['Otl'], 'modules': ['SfntV.Props.C08'],
  'rule': 'distinct case lines; non-trivial = coverage/class tables with at least two glyphs/runs, every '
          'subtable, every lookup-list and every mutated-bytes case',
  'partial': ['codecs proved: GSUB 1.1, 1.2, 2.1, 3.1, 4.1, GPOS value records, GPOS 1.1, 1.2, 2.1, feature list, GDEF',
-             'not modelled yet: GSUB 8.1, GPOS 2.2/3.1/4.1/5.1/6.1, (chained) context lookups, '
-             'anchors, mark arrays',
+             'modelled and tied by byte-exact encode / value-exact decode correspondence (incl. the 16-bit '
+             'boundary of every offset and mutated bytes) but without round-trip theorems yet: GSUB 8.1, '
+             'GPOS 2.2, 3.1, 4.1, 6.1 (with anchors and mark arrays), SeqContext1/2/3 and '
+             'ChainedSeqContext1/2/3 (streams otl.gsub.*, otl.gpos.*). Not modelled: GPOS 5.1 (the library has '
+             'no encoder for it: encode/encodeLen panic "not implemented")',
              'script list: ScriptListInfo.encode / readScriptList are modelled on the OpenType side of the tag '
              'conversion (bcp47ToOtf/otfToBCP47 mutually inverse on the library tables is property C14, an '
              'assumption here; the accepted tag sets are regenerated from locale.go) and tied by byte-exact '
@@ -60,11 +63,12 @@ LEVEL = {'text': 'Proof (partial over subtable types): Lean models of coverage.T
          'filtering set, subtable bytes) through the written 16-bit offsets and 32-bit extension offsets, or '
          'the encoder panics - never a wrapped offset. Tied to the code by byte-exact encoder and '
          'value-exact decoder correspondence (generated, boundary and mutated inputs) and by evaluating '
-         'independent specification readers on the bytes of the real encoders. Twelve silent 16-bit '
+         'independent specification readers on the bytes of the real encoders. Twenty-one silent 16-bit '
          'truncations found on the way were repaired as loud refusals (one, classdef format 1, as a '
          'correct choice of format 2).',
  'note': 'Trusted: Lean kernel + 3 standard axioms; hand-written models mirror the (repaired) Go code as checked '
          'by sampled correspondence; the specification readers are my reading of OpenType chapter 2 / GSUB / '
-         'GPOS. Remaining subtable types, script list and table header are not modelled.',
+         'GPOS. Every codec of the property is modelled except GPOS 5.1 (no encoder in the library); theorems cover '
+         'the parts listed under partial.',
  'technique': 'Lean 4 proofs about encoder/decoder models against executable specification readers + byte-exact '
               'differential correspondence'}
